@@ -4,7 +4,7 @@
 use super::h_traffic::short_id;
 use super::hworld::*;
 use crate::core::Ctx;
-use discv5::verif::{toolkit, HandlerIn, HandlerOut, NodeAddress, PacketKind, Request, RequestBody, Response, WhoAreYouRef};
+use discv5::verif::{toolkit, HandlerIn, HandlerOut, Message, NodeAddress, PacketKind, Request, RequestBody, Response, WhoAreYouRef};
 use discv5::Enr;
 use std::collections::BTreeMap;
 
@@ -204,13 +204,33 @@ async fn ttl_async(ctx: &mut Ctx) {
                 // a message accepted by V: which session decrypted it?
                 if node == 0 {
                     if let HandlerOut::Request(from, _) | HandlerOut::Response(from, _) = &ev {
-                        let carrier = w.inbound[0].iter().rev().take(8).find(|r| r.src == from.socket_addr && r.t_ms + 3 >= t).cloned();
-                        if let Some(r) = carrier {
-                            if let Ok(d) = toolkit::decode_packet(&w.nodes[0].id, &r.bytes) {
-                                if let Some(s) = session_of(&w, 0, &d, false) {
-                                    use_session(ctx, &w, &mut last_used, &dead_before, s, session_timeout_ms, "accepted a message under");
+                        // the carrier is a datagram from that address, delivered just now, that decrypts under one of the
+                        // victim's keys to exactly the delivered message (several datagrams may arrive in the same
+                        // millisecond, and a peer that crossed handshakes may send one of them under older keys, which the
+                        // victim does not accept: only a datagram carrying this very message counts)
+                        let enc = match &ev {
+                            HandlerOut::Request(_, r) => Message::Request((**r).clone()).encode(),
+                            HandlerOut::Response(_, r) => Message::Response((**r).clone()).encode(),
+                            _ => unreachable!(),
+                        };
+                        let vid = w.nodes[0].id;
+                        let mut cands: Vec<usize> = vec![];
+                        for r in w.inbound[0].iter().rev().take(8).filter(|r| r.src == from.socket_addr && r.t_ms + 3 >= t) {
+                            let Ok(d) = toolkit::decode_packet(&vid, &r.bytes) else { continue };
+                            for (i, (_, k)) in w.keylog.iter().enumerate() {
+                                if k.local == vid && toolkit::decrypt(&k.decryption_key, d.message_nonce, &d.message, &d.authenticated_data).map(|pt| pt == enc).unwrap_or(false) && !cands.contains(&i) {
+                                    cands.push(i);
                                 }
                             }
+                        }
+                        // (the same message under several keys: it was accepted under one of them; a violation only if
+                        // every possibility is an expired session)
+                        let alive = cands.iter().copied().find(|s| {
+                            let peer = w.keylog[*s].1.remote.raw();
+                            !dead_before.get(&peer).map(|d| *s < *d).unwrap_or(false) && last_used.get(&peer).map(|p| t.saturating_sub(*p) <= session_timeout_ms + 1).unwrap_or(true)
+                        });
+                        if let Some(s) = alive.or(cands.first().copied()) {
+                            use_session(ctx, &w, &mut last_used, &dead_before, s, session_timeout_ms, "accepted a message under");
                         }
                     }
                 }
